@@ -326,13 +326,16 @@ _reg("C19", c19.run,
                 "broadcasts to that shape, and w_in is then stored with that shape; accepted nodes have defined types.",
      level_note="Lean kernel; hand-written model of __post_init__; numpy broadcasting and `ones_like * w_in` are modelled "
                 "on the dtype combinations the generators produce (same float dtype, Python float with float64).")
-_reg("C20", c20.run, translator=("T6", "T7"), module="NirVerif.Properties.C20Loop",
+_reg("C20", c20.run, translator=("T6", "T7"), module="NirVerif.Properties.C20Crossings",
      theorems=["NirVerif.C20.zero", "NirVerif.C20.add", "NirVerif.C20.ode", "NirVerif.C20.relax", "NirVerif.C20.reset",
                "NirVerif.C20.spike_some", "NirVerif.C20.spike_none", "NirVerif.C20.cuba_euler",
                "NirVerif.C20.record_transparent", "NirVerif.C20.recorded_value",
                "NirVerif.C20.lif_flow", "NirVerif.C20.loop_spikes_independent", "NirVerif.C20.loop_records_independent",
                "NirVerif.C20.loop_record_value", "NirVerif.C20.lif_spikes_independent",
-               "NirVerif.C20.lif_records_independent", "NirVerif.C20.runA", "NirVerif.C20.runB"],
+               "NirVerif.C20.lif_records_independent", "NirVerif.C20.runA", "NirVerif.C20.runB",
+               "NirVerif.C20.argmin3_min", "NirVerif.C20.good_init", "NirVerif.C20.good_step", "NirVerif.C20.good_all",
+               "NirVerif.C20.spike_event_at_threshold", "NirVerif.C20.below_between_events",
+               "NirVerif.C20.below_after_last_event"],
      rule="Random tau in [1e-4,1], R, v_leak in [-2,2] (85% non-zero), v_threshold > v_leak, initial voltages below "
           "threshold: zero-step, split-step, long-time limit, RK4 comparison, threshold crossing of predicted spike "
           "times; event loop on 1-7 step currents with 5 recording intervals incl. non-dividing ones; CubaLIF reference "
@@ -351,8 +354,14 @@ _reg("C20", c20.run, translator=("T6", "T7"), module="NirVerif.Properties.C20Loo
                 "about that model it is proved by a simulation argument that any two runs with any two recording "
                 "intervals that return give the same spike list (loop_spikes_independent) and the same voltage at every "
                 "instant both record (loop_records_independent), each recorded voltage being the exact solution from the "
-                "non-recording run's state (loop_record_value). PARTIAL: over the reals; float64 rounding and that the "
-                "spike list equals the threshold crossings of the whole piecewise trajectory are left to the oracle.",
+                "non-recording run's state (loop_record_value). A loop invariant (good_all: membrane below threshold at "
+                "every loop state; a finite next_spike_time is an instant at which the current segment's exact solution "
+                "reaches the threshold and not before; an infinite one means it never does) gives: every spike is recorded "
+                "exactly at a threshold crossing (spike_event_at_threshold) and between consecutive events, and after the "
+                "last one up to duration, the membrane stays strictly below threshold (below_between_events, "
+                "below_after_last_event) - no crossing is missed - for 0<tau, 0<threshold, initial voltage below "
+                "threshold, sorted non-negative change times. PARTIAL: over the reals; float64 rounding is outside the "
+                "theorems (oracle with tolerances).",
      level_note="Lean kernel + Mathlib reals (Classical.choice); translator T6/T7 validated by bitwise execution of the "
                 "generated Float twins against CPython; float64 rounding is outside the theorems.",
      assumptions=["theorems are over the reals; the scripts run in float64 (tolerances 1e-7..1e-12 in the oracle)"])
